@@ -68,6 +68,41 @@ fn settle(el: &mut EventLoop<'static, ()>, prog: &Rc<RefCell<Progress>>) {
 }
 
 /// C15 / C17: adapting an fd the poller refuses (a regular file: EPERM) must fail and leave nothing behind
+/// a file descriptor number that is not open any more (`fcntl` fails on it before the poller is asked)
+struct ClosedFd(i32);
+impl AsFd for ClosedFd {
+    fn as_fd(&self) -> std::os::unix::io::BorrowedFd<'_> {
+        unsafe { std::os::unix::io::BorrowedFd::borrow_raw(self.0) }
+    }
+}
+
+/// C15: adapting an fd that is refused before the poller is even asked (closed: EBADF from fcntl) leaves nothing behind
+fn run_adaptclosed(out: &mut impl Write) {
+    let el: EventLoop<'static, ()> = EventLoop::try_new().unwrap();
+    let h = el.handle();
+    let raw = {
+        let (a, _b) = UnixStream::pair().unwrap();
+        a.as_raw_fd()
+    }; // both ends closed here
+    let before = h.verif_stats();
+    let mut errs = 0;
+    for _ in 0..3 {
+        if h.adapt_io(ClosedFd(raw)).is_err() {
+            errs += 1;
+        }
+    }
+    let after = h.verif_stats();
+    writeln!(
+        out,
+        "adaptclosed errs={} occupied={}->{} slots_grew={}",
+        errs,
+        before.occupied,
+        after.occupied,
+        (after.slots > before.slots + 1) as u8
+    )
+    .unwrap();
+}
+
 fn run_adaptfail(blocking: bool, out: &mut impl Write) {
     let el: EventLoop<'static, ()> = EventLoop::try_new().unwrap();
     let h = el.handle();
@@ -89,6 +124,10 @@ fn run_adaptfail(blocking: bool, out: &mut impl Write) {
 }
 
 fn run_case(lines: &[String], out: &mut impl Write) {
+    if lines.iter().any(|l| l.trim() == "mode adaptclosed") {
+        run_adaptclosed(out);
+        return;
+    }
     if lines.iter().any(|l| l.trim() == "mode adaptfail") {
         let blocking = lines.iter().any(|l| l.trim() == "blocking 1");
         run_adaptfail(blocking, out);
@@ -99,6 +138,7 @@ fn run_case(lines: &[String], out: &mut impl Write) {
     let (mut total, mut chunk) = (0usize, 1usize);
     let mut end_into_inner = false;
     let mut probe_first = false;
+    let mut vectored = false;
     let mut ops: Vec<String> = Vec::new();
     for l in lines {
         let w: Vec<&str> = l.split_whitespace().collect();
@@ -112,6 +152,8 @@ fn run_case(lines: &[String], out: &mut impl Write) {
             "finish" => end_into_inner = w[1] == "intoinner",
             // every wait is first polled under a throw-away waker (a `now_or_never`-style probe), then awaited
             "probe" => probe_first = w[1] == "1",
+            // writes (and reads) go through the vectored entry points, the buffer split in two
+            "vectored" => vectored = w[1] == "1",
             _ => ops.push(l.clone()),
         }
     }
@@ -189,7 +231,12 @@ fn run_case(lines: &[String], out: &mut impl Write) {
                                     return std::task::Poll::Ready(r);
                                 }
                             }
-                            Pin::new(&mut io).poll_write(cx, &buf[..want])
+                            if vectored && want >= 2 {
+                                let (x, y) = buf[..want].split_at(want / 2);
+                                Pin::new(&mut io).poll_write_vectored(cx, &[std::io::IoSlice::new(x), std::io::IoSlice::new(y)])
+                            } else {
+                                Pin::new(&mut io).poll_write(cx, &buf[..want])
+                            }
                         })
                         .await;
                         let n = match n {
